@@ -9,6 +9,8 @@ import (
 	"os"
 	"strings"
 	"sync"
+
+	"github.com/ostafen/clover/v2/store"
 )
 
 func scratchBase() string {
@@ -34,6 +36,8 @@ func marshalLine(e E) []byte {
 }
 
 // runTrace executes one abstract history on fresh backends and returns the trace lines.
+var txLogAll = false // wrap every backend with a counting (never failing) injector: one-transaction-per-operation log
+
 func runTrace(u *Universe, backends []string, evs []E, header E, auditWrites bool, readAudit float64, seed int64) ([][]byte, map[string]int) {
 	dir, err := os.MkdirTemp(scratchBase(), "verif-trace-")
 	if err != nil {
@@ -42,10 +46,17 @@ func runTrace(u *Universe, backends []string, evs []E, header E, auditWrites boo
 	defer os.RemoveAll(dir)
 	x := &Exec{U: u, FileDir: dir}
 	for _, name := range backends {
-		b, err := NewBackend(name, dir, nil)
+		var wrap func(store.Store) store.Store
+		var in *injector
+		if txLogAll {
+			in = &injector{}
+			wrap = func(s store.Store) store.Store { return &wStore{inner: s, in: in} }
+		}
+		b, err := NewBackend(name, dir, wrap)
 		if err != nil {
 			panic(err)
 		}
+		b.in = in
 		x.Backends = append(x.Backends, b)
 	}
 	defer func() {
@@ -122,7 +133,9 @@ func cmdGen(args []string) {
 	par := fs.Int("par", 8, "parallel traces")
 	ops := fs.Int("ops", 0, "override events per trace")
 	statsOut := fs.String("stats", "", "write generator statistics (json) here")
+	txlog := fs.Bool("txlog", false, "record the store transactions of every call")
 	fs.Parse(args)
+	txLogAll = *txlog
 
 	type result struct {
 		lines [][]byte
